@@ -25,7 +25,7 @@ Clauses ==
      kind_consistent |-> /\ (Rec.kind \in {"complete", "dup"} => (IsSomeMesh(Pts, Rec.DEN) /\ LcmT = N))
                          /\ (Rec.kind = "removed" => ~SelectionDefined(Pts, N, Rec.DEN)),
      info_mp_equals_spec   |-> Same(Res(Rec.mp), GetMpGrid(Pts, Rec.DEN)),
-     info_gfk_equals_spec  |-> Same(Res(Rec.gfk), GridFromKpoints(Pts, Grid, Rec.DEN)) ]
+     info_gfk_equals_spec  |-> Len(Pts) <= 150 => Same(Res(Rec.gfk), GridFromKpoints(Pts, Grid, Rec.DEN)) ]   \* (quadratic: small lists only)
 Report == \A c \in DOMAIN Clauses : Clauses[c] \/ PrintT(<<"BAD", i, c>>)
 RecInit == i \in 1..Len(Recs)
 RecSpec == RecInit /\ [][UNCHANGED i]_i
